@@ -309,7 +309,7 @@ def _collect_syms(n: Any, out: dict[Any, Any]) -> None:
 
 
 def run_shard(ctx: Any) -> None:
-    n = 60 if ctx.tier == "quick" else 2500
+    n = 100 if ctx.tier == "quick" else 2500
 
     @given(cases())
     def test(case: dict[str, Any]) -> None:
